@@ -17,6 +17,7 @@ from ..core import AnalysisError, call_name, dotted, func_params, is_self_attr, 
 from ..flow import dominating_atoms, enclosing_loops, block_of, enclosing_tests, always_raises
 from .. import coh
 from .. import fields as F
+from . import shared
 
 VALIDATORS = [
     ('cirq_google.devices.grid_device.GridDevice', '_validate_operations', True),
@@ -351,6 +352,8 @@ def run(ctx):
     ctx.ob('C07.c', 'optimize:context-forwarded', ok, '' if ok else 'the transformer context (tags_to_ignore, deep) is not forwarded to the pipeline stages', m.rel, opt.lineno)
 
     # ------------------------------------------------------------------ C07.e
+    shared.placement_query_rule(ctx, 'C07.h', ['cirq-core/cirq/transformers/routing/', 'cirq-core/cirq/transformers/target_gatesets/', 'cirq-google/cirq_google/transformers/'], floor=1)
+    ctx.decided.append('C07.h routing / compilation code schedules operations with the key-aware placement query')
     ctx.rule('C07.e', 'body-for-operation substitution: a transformer may treat the body (`.circuit`) of a CircuitOperation as standing for '
              'the operation (expanding it into operations, or handing it to a rewriter as a merged component) only under a test that its '
              'own intermediate/merged tag is on the operation - otherwise repetitions and maps of a user sub-circuit are ignored', floor=4, style='RG')
